@@ -249,8 +249,10 @@ def handleOp (toks : List String) (t : Table) (lt : Table) : String :=
       if fn == "proto" then rle (fun c => outc (validateProtocol cfg (mk c))) (showOutc showStr) lo hi
       else if fn == "host" then rle (fun c => outc (isValidHostname cfg (mk c))) (showOutc boolStr) lo hi
       else if fn == "classify" then
-        rle (fun c => outc ((classifyHost L cfg (mk c)).map fun | .name _ => Host.name [] | h => h))
-          (fun o => match o with
+        -- (host names are all rendered `N`: compare them as one value)
+        let norm : Host V6 → Host V6 := fun h => match h with | .name _ => .name [] | h => h
+        rle (fun c => outc ((classifyHost L cfg (mk c)).map norm))
+          (fun (o : Nat × Option (Host V6)) => match o with
             | (_, some (.name _)) => "N" | (_, some (.ip4 x)) => "4:" ++ showIP4 x
             | (_, some (.ip6 x)) => "6:" ++ showStr x | o => showOutc (fun _ => "") o) lo hi
       else if fn == "port" then
